@@ -119,6 +119,7 @@ func (p *Parser) parseTransaction() *ast.Transaction {
 
 	if p.current.Type == TokenText {
 		desc := p.current.Value
+		tx.PayeeRange = textRange(p.current)
 		p.advance()
 
 		if p.current.Type == TokenPipe {
@@ -161,6 +162,18 @@ func (p *Parser) parseTransaction() *ast.Transaction {
 
 	tx.Range.End = toASTPosition(p.contentEnd)
 	return tx
+}
+
+// textRange is the range of a text token's value: the token itself may extend
+// over trailing blanks that were trimmed from the value.
+func textRange(tok Token) ast.Range {
+	start := toASTPosition(tok.Pos)
+	end := start
+	for _, r := range tok.Value {
+		end.Column += columnWidth(r)
+	}
+	end.Offset += len(tok.Value)
+	return ast.Range{Start: start, End: end}
 }
 
 func (p *Parser) parseDate() *ast.Date {
